@@ -57,9 +57,13 @@ func genC13(seed uint64, idx int, tier string) interface{} {
 		v = v.Themed(r.Fork(7))
 	}
 	ir := r.Fork(2)
-	for i, n := 0, r.Range(2, 5); i < n; i++ {
+	maxInputs, pLong := 5, 0.04
+	if tier == "thorough" {
+		maxInputs, pLong = 7, 0.08
+	}
+	for i, n := 0, r.Range(2, maxInputs); i < n; i++ {
 		switch {
-		case r.Bool(0.04):
+		case r.Bool(pLong):
 			pl.Inputs = append(pl.Inputs, GenLongInput(ir, v))
 		case r.Bool(0.15): // 1-4 KB: size-gated fast paths and pools
 			pl.Inputs = append(pl.Inputs, GenInput(ir, v, 60))
@@ -69,6 +73,9 @@ func genC13(seed uint64, idx int, tier string) interface{} {
 	}
 	tr := r.Fork(3)
 	ntasks := tr.Range(2, 6)
+	if tier == "thorough" && tr.Bool(0.2) {
+		ntasks = tr.Range(6, 10)
+	}
 	faultTask := -1
 	if tr.Bool(0.25) {
 		faultTask = tr.Intn(ntasks)
